@@ -48,8 +48,10 @@ class Interp:
         self.trace = []     # (class simple name, mode at entry) of every (nested) body, in call order
 
     # ================================================================== serialise
-    def serialize(self, body, obj, lex=False, sanitize=False, label=None):
+    def serialize(self, body, obj, lex=False, sanitize=False, label=None, prefix=b""):
+        """`prefix`: bytes already in the writer when serialisation starts (returned as well)."""
         w = RefWriter()
+        w.data.extend(prefix)
         w.sanitize = sanitize
         self.ser_body(body, obj, w, lex, label)
         return bytes(w.data)
